@@ -24,7 +24,7 @@ impl Solver {
     pub fn spawn() -> Solver {
         let bin = std::env::var("SYMRT_CVC5").unwrap_or_else(|_| "cvc5".into());
         let mut child = Command::new(bin)
-            .args(["--incremental", "--lang", "smt2", "--produce-models", "--tlimit-per=10000"])
+            .args(["--incremental", "--lang", "smt2", "--produce-models", "--tlimit-per=2500"])
             .stdin(Stdio::piped())
             .stdout(Stdio::piped())
             .stderr(Stdio::null())
@@ -198,10 +198,16 @@ pub fn oneshot_robust(script_decls_asserts: &str, vars: &[(String, u32)], want_m
         }
         script.push_str("))\n");
     }
+    if let Ok(dir) = std::env::var("SYMRT_DUMP_FALLBACK") {
+        static N: std::sync::atomic::AtomicU64 = std::sync::atomic::AtomicU64::new(0);
+        let n = N.fetch_add(1, std::sync::atomic::Ordering::Relaxed);
+        let _ = std::fs::write(format!("{}/fb_{}_{}.smt2", dir, std::process::id(), n), &script);
+    }
     let attempts: Vec<(String, Vec<&str>)> = vec![
-        (std::env::var("SYMRT_CVC5").unwrap_or_else(|_| "cvc5".into()), vec!["--lang", "smt2", "--tlimit=120000"]),
-        ("z3-new".into(), vec!["-in", "-T:120"]),
-        (std::env::var("SYMRT_Z3").unwrap_or_else(|_| "/usr/bin/z3".into()), vec!["-in", "-T:120"]),
+        ("z3-new".into(), vec!["-in", "-T:20"]),
+        (std::env::var("SYMRT_CVC5").unwrap_or_else(|_| "cvc5".into()), vec!["--lang", "smt2", "--tlimit=30000"]),
+        (std::env::var("SYMRT_Z3").unwrap_or_else(|_| "/usr/bin/z3".into()), vec!["-in", "-T:60"]),
+        ("z3-new".into(), vec!["-in", "-T:240"]),
     ];
     for (bin, args) in attempts {
         let Ok(mut child) = Command::new(&bin).args(&args).stdin(Stdio::piped()).stdout(Stdio::piped()).stderr(Stdio::null()).spawn() else { continue };
@@ -210,14 +216,12 @@ pub fn oneshot_robust(script_decls_asserts: &str, vars: &[(String, u32)], want_m
         }
         let Ok(out) = child.wait_with_output() else { continue };
         let text = String::from_utf8_lossy(&out.stdout).to_string();
-        if text.contains("(error") {
-            continue;
-        }
         let first = text.lines().next().map(|l| l.trim().to_string()).unwrap_or_default();
         if first == "unsat" {
+            // (get-value after unsat prints an error line; irrelevant)
             return Some(None);
         }
-        if first == "sat" {
+        if first == "sat" && !text.contains("(error") {
             let mut m = HashMap::new();
             if want_model {
                 let rest: String = text.lines().skip(1).collect::<Vec<_>>().join(" ");
